@@ -8,7 +8,7 @@ From CG Require Import Base.Prelude Model.Ast Model.Check Model.Regex Model.Dfa 
 From CG Require Import Model.Tables Model.EmitBash Model.Compiler.
 From CG Require Import Proofs.TablesSound.
 From CG Require Proofs.MinimizeBasics.
-From CG Require Import Model.Tpl.
+From CG Require Import Model.Tpl Model.EmitData.
 From CGgen Require Import Consts TplBash.
 Open Scope N_scope.
 Open Scope list_scope.
@@ -166,26 +166,34 @@ Proof.
   - eapply nth_error_In. exact Hi.
 Qed.
 
-Lemma glt_total d cmds start nc ns ord rt :
+Lemma glt_total d cmds start nc ncp ns ord rt :
   dfa_wf d -> rtrans d = Ok rt ->
   valid_literal_order d ord = true ->
   (forall f c l to, In (f, ICmd c l, to) rt -> In c cmds) ->
-  exists t, get_lookup_tables d cmds start nc false ns ord = Ok t
+  (forall f c l to, In (f, ICompadd c l, to) rt -> In c cmds) ->
+  exists t, get_lookup_tables d cmds start nc ncp ns ord = Ok t
             /\ t_maxlevel t = match get_max_fallback_level rt with Some m => m | None => start end.
 Proof.
-  intros W Hrt V Hc. unfold get_lookup_tables. rewrite Hrt.
+  intros W Hrt V Hc Hcp. unfold get_lookup_tables. rewrite Hrt.
   assert (Hlit : forall s x to r, In (s, x, to) rt -> lit_sel (all_literals ord start) x = Some r -> exists k, r = Ok k).
   { intros s x to r Hin E. destruct x; cbn in E; try discriminate. inversion E; subst r.
     apply lit_id_total. eapply valid_order_in; [exact V|]. eapply rt_input; eauto. }
   assert (Hcmd : forall s x to r, In (s, x, to) rt -> cmd_sel cmds x = Some r -> exists k, r = Ok k).
   { intros s x to r Hin E. destruct x; cbn in E; try discriminate. inversion E; subst r.
     unfold cmd_id_or_panic. destruct (index_of_some cmd cmds (Hc _ _ _ _ Hin)) as [k ->]. eauto. }
+  assert (Hcpd : forall s x to r, In (s, x, to) rt -> compadd_sel cmds x = Some r -> exists k, r = Ok k).
+  { intros s x to r Hin E. destruct x; cbn in E; try discriminate. inversion E; subst r.
+    unfold cmd_id_or_panic. destruct (index_of_some cmd cmds (Hcp _ _ _ _ Hin)) as [k ->]. eauto. }
   destruct (match_table_total d (get_all_states d) _ rt W Hrt Hlit) as [mlit Hmlit].
   unfold get_literal_transitions. fold (lit_sel (all_literals ord start)). rewrite Hmlit. cbn [obind].
   assert (Hmc : exists mcmd, opt_when nc (get_command_transitions d (get_all_states d) cmds) = Ok mcmd).
   { unfold opt_when. destruct nc; [|eauto]. unfold get_command_transitions. fold (cmd_sel cmds).
     destruct (match_table_total d (get_all_states d) _ rt W Hrt Hcmd) as [m ->]. cbn. eauto. }
-  destruct Hmc as [mcmd ->]. cbn [obind opt_when].
+  destruct Hmc as [mcmd ->]. cbn [obind].
+  assert (Hmp : exists mcp, opt_when ncp (get_compadd_transitions d (get_all_states d) cmds) = Ok mcp).
+  { unfold opt_when. destruct ncp; [|eauto]. unfold get_compadd_transitions. fold (compadd_sel cmds).
+    destruct (match_table_total d (get_all_states d) _ rt W Hrt Hcpd) as [m ->]. cbn. eauto. }
+  destruct Hmp as [mcp ->]. cbn [obind].
   set (maxlevel := match get_max_fallback_level rt with Some m => m | None => start end).
   assert (Hlvl : forall f x to l, In (f, x, to) rt -> inp_level x = Some l -> (N.to_nat l < N.to_nat maxlevel + 1)%nat).
   { intros f x to l Hin El. destruct (max_level_ge rt f x to l Hin El) as [m [Em Lm]]. unfold maxlevel. rewrite Em. lia. }
@@ -200,7 +208,14 @@ Proof.
     intros f x to lvl r Hin E. destruct x; cbn in E; try discriminate. inversion E; subst lvl r. split.
     - eapply Hlvl; [exact Hin|reflexivity].
     - unfold cmd_id_or_panic. destruct (index_of_some cmd cmds (Hc _ _ _ _ Hin)) as [k ->]. eauto. }
-  destruct Hcc as [ccmd ->]. cbn [obind]. eexists. split; [reflexivity|reflexivity].
+  destruct Hcc as [ccmd ->]. cbn [obind].
+  assert (Hcq : exists ccp, opt_when ncp (get_completion_compadds rt cmds maxlevel) = Ok ccp).
+  { unfold opt_when. destruct ncp; [|eauto]. unfold get_completion_compadds. fold (compadd_csel cmds).
+    destruct (completion_table_total rt maxlevel (compadd_csel cmds) push) as [m ->]; [|cbn; eauto].
+    intros f x to lvl r Hin E. destruct x; cbn in E; try discriminate. inversion E; subst lvl r. split.
+    - eapply Hlvl; [exact Hin|reflexivity].
+    - unfold cmd_id_or_panic. destruct (index_of_some cmd cmds (Hcp _ _ _ _ Hin)) as [k ->]. eauto. }
+  destruct Hcq as [ccp ->]. cbn [obind]. eexists. split; [reflexivity|reflexivity].
 Qed.
 
 (** *** script ids of the within-word automata *)
@@ -274,17 +289,19 @@ Proof.
 Qed.
 
 (** *** commands *)
+Definition names_cmd (x : inp) (cm : string) : Prop := exists lv, x = ICmd cm lv \/ x = ICompadd cm lv.
+
 Lemma cmds_of_inputs_incl xs : forall acc c, In c acc -> In c (cmds_of_inputs acc xs).
 Proof.
   unfold cmds_of_inputs. induction xs as [|x r IH]; intros acc c H; cbn [fold_left]; [exact H|].
   apply IH. destruct x; try exact H; apply push_new_in; auto.
 Qed.
 
-Lemma cmds_of_inputs_cmd xs : forall acc c l, In (ICmd c l) xs -> In c (cmds_of_inputs acc xs).
+Lemma cmds_of_inputs_cmd xs : forall acc x c, In x xs -> names_cmd x c -> In c (cmds_of_inputs acc xs).
 Proof.
-  unfold cmds_of_inputs. induction xs as [|x r IH]; intros acc c l H; [contradiction|]. cbn [fold_left].
-  destruct H as [->|H]; [|eapply IH; exact H].
-  apply (cmds_of_inputs_incl r). apply push_new_in. auto.
+  unfold cmds_of_inputs. induction xs as [|y r IH]; intros acc x c H Hn; [contradiction|]. cbn [fold_left].
+  destruct H as [->|H]; [|eapply IH; eauto].
+  apply (cmds_of_inputs_incl r). destruct Hn as [lv [-> | ->]]; apply push_new_in; auto.
 Qed.
 
 Definition pool_closed (c : cdfa) (rt : list (N * inp * N)) : Prop :=
@@ -307,37 +324,37 @@ Lemma get_commands_fold c : forall rt0 l,
   pool_closed c rt0 ->
   exists l', fold_left (gc_step c) rt0 (Ok l) = Ok l'
     /\ (forall cm, In cm l -> In cm l')
-    /\ (forall f cm lv to, In (f, ICmd cm lv, to) rt0 -> In cm l')
-    /\ (forall f s lv to sd srt f' cm lv' to',
+    /\ (forall f x to cm, In (f, x, to) rt0 -> names_cmd x cm -> In cm l')
+    /\ (forall f s lv to sd srt f' x' to' cm,
            In (f, ISub s lv, to) rt0 -> nthN (c_subs c) s = Some sd -> rtrans sd = Ok srt ->
-           In (f', ICmd cm lv', to') srt -> In cm l').
+           In (f', x', to') srt -> names_cmd x' cm -> In cm l').
 Proof.
   induction rt0 as [|[[f0 x0] t0] r IH]; intros l Hp; cbn [fold_left].
   - exists l. split; [reflexivity|]. split; [auto|]. split; [intros ? ? ? ? []|intros ? ? ? ? ? ? ? ? ? ? []].
   - assert (Hp' : pool_closed c r) by (intros f s lv to H; apply (Hp f s lv to); right; exact H).
     assert (Step : exists l1, gc_step c (Ok l) (f0, x0, t0) = Ok l1
                      /\ (forall cm, In cm l -> In cm l1)
-                     /\ (forall cm lv, x0 = ICmd cm lv -> In cm l1)
-                     /\ (forall s lv sd srt f' cm lv' to', x0 = ISub s lv -> nthN (c_subs c) s = Some sd ->
-                           rtrans sd = Ok srt -> In (f', ICmd cm lv', to') srt -> In cm l1)).
+                     /\ (forall cm, names_cmd x0 cm -> In cm l1)
+                     /\ (forall s lv sd srt f' x' to' cm, x0 = ISub s lv -> nthN (c_subs c) s = Some sd ->
+                           rtrans sd = Ok srt -> In (f', x', to') srt -> names_cmd x' cm -> In cm l1)).
     { unfold gc_step. cbn [obind]. destruct x0 as [t d lv|s lv|cm lv|cm lv|].
-      - exists l. repeat split; auto; intros; discriminate.
+      - exists l. split; [reflexivity|]. split; [auto|]. split; [intros cm [lv0 [E|E]]; discriminate|intros; discriminate].
       - destruct (Hp f0 s lv t0 (or_introl eq_refl)) as [sd [Hsd Wsd]].
         unfold lookup_sub. rewrite Hsd. cbn [obind]. destruct (rtrans_total sd Wsd) as [srt Hsrt]. rewrite Hsrt. cbn [obind].
         eexists. split; [reflexivity|]. split; [intros cm H; apply cmds_of_inputs_incl; exact H|].
-        split; [intros; discriminate|].
-        intros s' lv0 sd' srt' f' cm lv' to' E Hsd' Hsrt' Hin. inversion E; subst s' lv0.
+        split; [intros cm [lv0 [E|E]]; discriminate|].
+        intros s' lv0 sd' srt' f' x' to' cm E Hsd' Hsrt' Hin Hn. inversion E; subst s' lv0.
         rewrite Hsd in Hsd'. inversion Hsd'; subst sd'. rewrite Hsrt in Hsrt'. inversion Hsrt'; subst srt'.
-        eapply cmds_of_inputs_cmd. apply in_map_iff. exists (f', ICmd cm lv', to'). split; [reflexivity|exact Hin].
+        eapply cmds_of_inputs_cmd; [|exact Hn]. apply in_map_iff. exists (f', x', to'). split; [reflexivity|exact Hin].
       - exists (push_new cm l). split; [reflexivity|]. split; [intros c0 H; apply push_new_in; auto|].
-        split; [intros c0 lv0 E; inversion E; subst; apply push_new_in; auto|intros; discriminate].
+        split; [intros c0 [lv0 [E|E]]; inversion E; subst; apply push_new_in; auto|intros; discriminate].
       - exists (push_new cm l). split; [reflexivity|]. split; [intros c0 H; apply push_new_in; auto|].
-        split; intros; discriminate.
-      - exists l. repeat split; auto; intros; discriminate. }
+        split; [intros c0 [lv0 [E|E]]; inversion E; subst; apply push_new_in; auto|intros; discriminate].
+      - exists l. split; [reflexivity|]. split; [auto|]. split; [intros cm [lv0 [E|E]]; discriminate|intros; discriminate]. }
     destruct Step as [l1 [E1 [I1 [C1 S1]]]]. rewrite E1.
     destruct (IH l1 Hp') as [l' [E' [I' [C' S']]]]. exists l'. split; [exact E'|]. split; [auto|]. split.
-    + intros f cm lv to [H|H]; [inversion H; subst; apply I'; eapply C1; reflexivity|eapply C'; exact H].
-    + intros f s lv to sd srt f' cm lv' to' [H|H] Hsd Hsrt Hin.
+    + intros f x to cm [H|H] Hn; [inversion H; subst; apply I'; apply C1; exact Hn|eapply C'; eauto].
+    + intros f s lv to sd srt f' x' to' cm [H|H] Hsd Hsrt Hin Hn.
       * inversion H; subst. apply I'. eapply S1; eauto.
       * eapply S'; eauto.
 Qed.
@@ -345,10 +362,10 @@ Qed.
 Lemma get_commands_total c rt :
   rtrans (c_main c) = Ok rt -> pool_closed c rt ->
   exists cmds, get_commands c = Ok cmds
-    /\ (forall f cm lv to, In (f, ICmd cm lv, to) rt -> In cm cmds)
-    /\ (forall f s lv to sd srt f' cm lv' to',
+    /\ (forall f x to cm, In (f, x, to) rt -> names_cmd x cm -> In cm cmds)
+    /\ (forall f s lv to sd srt f' x' to' cm,
            In (f, ISub s lv, to) rt -> nthN (c_subs c) s = Some sd -> rtrans sd = Ok srt ->
-           In (f', ICmd cm lv', to') srt -> In cm cmds).
+           In (f', x', to') srt -> names_cmd x' cm -> In cm cmds).
 Proof.
   intros Hrt Hp. unfold get_commands. rewrite Hrt. cbn [obind].
   destruct (get_commands_fold c rt [] Hp) as [l' [E [_ [C S]]]]. exists l'.
@@ -388,16 +405,18 @@ Proof.
   apply (H (pi, sd)). apply number_from_in. split; [lia|]. rewrite N.sub_0_r. exact Hn.
 Qed.
 
-Lemma all_tables_total c om os rt :
+Lemma all_tables_total sh c om os rt :
   dfa_wf (c_main c) -> rtrans (c_main c) = Ok rt -> pool_closed c rt -> orders_ok c om os = true ->
-  exists nd a, all_tables Bash c om os = Ok (nd, a).
+  exists nd a, all_tables sh c om os = Ok (nd, a).
 Proof.
   intros W Hrt Hp Ho. unfold all_tables.
   destruct (get_needs_total c rt Hrt Hp) as [nd ->]. cbn [obind].
   destruct (get_commands_total c rt Hrt Hp) as [cmds [-> [Cm Cs]]]. cbn [obind]. rewrite Hrt. cbn [obind].
-  cbn [compadd_switch].
-  destruct (glt_total (c_main c) cmds (array_start Bash) (n_top_cmd nd) (n_top_star nd) om rt W Hrt
-              (orders_ok_main c om os Ho) Cm) as [main [-> Hmax]]. cbn [obind].
+  destruct (glt_total (c_main c) cmds (array_start sh) (n_top_cmd nd) (compadd_switch sh (n_top_compadd nd))
+              (n_top_star nd) om rt W Hrt (orders_ok_main c om os Ho)) as [main [-> Hmax]].
+  { intros f cm l to Hin. eapply Cm; [exact Hin|]. exists l. auto. }
+  { intros f cm l to Hin. eapply Cm; [exact Hin|]. exists l. auto. }
+  cbn [obind].
   (* within-word transitions *)
   assert (Hst : exists st, subword_transitions (c_main c) (get_all_states (c_main c)) = Ok st).
   { unfold subword_transitions.
@@ -406,24 +425,25 @@ Proof.
     - rewrite Hrows. cbn. eauto. }
   destruct Hst as [st ->]. cbn [obind].
   (* within-word candidates *)
-  assert (Hcs : exists cs, get_completion_subwords rt (get_subwords rt (array_start Bash)) (t_maxlevel main) = Ok cs).
+  assert (Hcs : exists cs, get_completion_subwords rt (get_subwords rt (array_start sh)) (t_maxlevel main) = Ok cs).
   { unfold get_completion_subwords. apply completion_table_total.
     intros f x to lvl r Hin E. destruct x; try discriminate. inversion E; subst lvl r. split.
     - rewrite Hmax. destruct (max_level_ge rt f (ISub sub level) to level Hin eq_refl) as [m [-> L]]. lia.
-    - unfold sub_id_or_panic. destruct (get_subwords_covers rt Consts.array_start_bash f sub level to Hin) as [id ->]. eauto. }
+    - unfold sub_id_or_panic. destruct (get_subwords_covers rt (array_start sh) f sub level to Hin) as [id ->]. eauto. }
   destruct Hcs as [cs ->]. cbn [obind].
   (* the tables of the within-word automata *)
-  assert (Hsub : forall pi, In pi (get_subwords rt (array_start Bash)) ->
+  assert (Hsub : forall pi, In pi (get_subwords rt (array_start sh)) ->
                             exists sd, nthN (c_subs c) (fst pi) = Some sd /\ dfa_wf sd).
   { intros [pi id] Hin. destruct (get_subwords_origin rt _ pi id Hin) as [f [l [to H]]]. cbn [fst]. eapply Hp. exact H. }
   match goal with |- exists nd0 a, obind (omap ?f ?l) _ = _ => destruct (omap_tot f l) as [subs Hsubs] end.
   { intros [pi id] Hin. cbn [fst snd]. destruct (Hsub _ Hin) as [sd [Hsd Wsd]]. cbn [fst] in Hsd.
     unfold lookup_sub. rewrite Hsd. cbn [obind]. destruct (rtrans_total sd Wsd) as [srt Hsrt].
     destruct (get_subwords_origin rt _ pi id Hin) as [f [l [to Hf]]].
-    destruct (glt_total sd cmds (array_start Bash) (n_sub_cmd nd) (n_sub_star nd)
+    destruct (glt_total sd cmds (array_start sh) (n_sub_cmd nd) (compadd_switch sh (n_sub_compadd nd)) (n_sub_star nd)
                 (match assocN pi os with Some o => o | None => [] end) srt Wsd Hsrt) as [t [Ht _]].
     - exact (orders_ok_sub c om os pi sd Ho Hsd).
-    - intros f' cm lv' to' Hin'. eapply (Cs f pi l to sd srt f' cm lv' to'); eauto.
+    - intros f' cm lv' to' Hin'. eapply (Cs f pi l to sd srt f' _ to' cm); eauto. exists lv'. auto.
+    - intros f' cm lv' to' Hin'. eapply (Cs f pi l to sd srt f' _ to' cm); eauto. exists lv'. auto.
     - rewrite Ht. cbn. eauto. }
   rewrite Hsubs. cbn [obind].
   match goal with |- exists nd0 a, obind (omap ?f ?l) _ = _ => destruct (omap_tot f l) as [sacc Hsacc] end.
@@ -447,13 +467,13 @@ Proof.
 Qed.
 
 Section Script.
-  Variables (c : cdfa) (om : list (string * string)) (os : list (N * list (string * string)))
+  Variables (sh : shell) (c : cdfa) (om : list (string * string)) (os : list (N * list (string * string)))
             (nd : needs) (a : alltables).
   Hypothesis Hwf : dfa_wf (c_main c).
-  Hypothesis Hall : all_tables Bash c om os = Ok (nd, a).
+  Hypothesis Hall : all_tables sh c om os = Ok (nd, a).
 
   Lemma pool_index_has_tables rt pi id :
-    rtrans (c_main c) = Ok rt -> In (pi, id) (get_subwords rt (array_start Bash)) ->
+    rtrans (c_main c) = Ok rt -> In (pi, id) (get_subwords rt (array_start sh)) ->
     (exists t, In (pi, id, t) (a_subwords a)) /\ (exists accs, In (id, accs) (a_subaccepting a)).
   Proof.
     intros Hrt Hin. destruct (all_tables_inv _ _ _ _ _ _ Hall) as [rt' F].
@@ -474,7 +494,7 @@ Section Script.
     - unfold tables_of_id.
       destruct (find_total (fun e : N * N * tables => N.eqb (snd (fst e)) id) _ _ Hin) as [y ->]; [cbn; apply N.eqb_refl|eauto].
     - destruct (all_tables_inv _ _ _ _ _ _ Hall) as [rt F].
-      apply (proj1 (subwords_exact Bash c om os nd a Hall pi id t)) in Hin.
+      apply (proj1 (subwords_exact sh c om os nd a Hall pi id t)) in Hin.
       destruct Hin as [rt' [sd [Hrt' [Hin _]]]].
       destruct (pool_index_has_tables rt' pi id Hrt' Hin) as [_ [accs Hacc]].
       unfold accepting_of_id. destruct (assocN_total _ _ _ Hacc) as [v' ->]. eauto.
@@ -525,10 +545,10 @@ Section Script.
       - intros [s row] Hrow. cbn [fst snd].
         match goal with |- exists y, obind (omap ?f ?l) _ = _ => destruct (omap_tot f l) as [kvs Hk] end.
         + intros [pi to] Hpt. cbn [fst snd].
-          destruct (proj1 (subtrans_exact Bash c om os nd a Hwf Hall s pi to)) as [lvl Htr]; [eauto|].
+          destruct (proj1 (subtrans_exact sh c om os nd a Hwf Hall s pi to)) as [lvl Htr]; [eauto|].
           destruct (all_tables_inv _ _ _ _ _ _ Hall) as [rt F].
           apply (trans_on_rt _ _ _ _ _ Hwf (af_rt _ _ _ _ _ _ _ F)) in Htr.
-          destruct (get_subwords_covers rt (array_start Bash) s pi lvl to Htr) as [id Hid].
+          destruct (get_subwords_covers rt (array_start sh) s pi lvl to Htr) as [id Hid].
           apply assocN_in in Hid.
           destruct (pool_index_has_tables rt pi id (af_rt _ _ _ _ _ _ _ F) Hid) as [[t Ht] _].
           unfold script_id.
@@ -538,7 +558,71 @@ Section Script.
       - rewrite Hrows. cbn. eauto. }
     destruct H2 as [st ->]. cbn [obind]. eauto.
   Qed.
+
+  (** the data sections of the other three emitters *)
+  Lemma subtrans_script_id s row pi to :
+    In (s, row) (a_subtrans a) -> In (pi, to) row -> exists id, script_id a pi = Ok id.
+  Proof.
+    intros Hrow Hpt.
+    destruct (proj1 (subtrans_exact sh c om os nd a Hwf Hall s pi to)) as [lvl Htr]; [eauto|].
+    destruct (all_tables_inv _ _ _ _ _ _ Hall) as [rt F].
+    apply (trans_on_rt _ _ _ _ _ Hwf (af_rt _ _ _ _ _ _ _ F)) in Htr.
+    destruct (get_subwords_covers rt (array_start sh) s pi lvl to Htr) as [id Hid].
+    apply assocN_in in Hid.
+    destruct (pool_index_has_tables rt pi id (af_rt _ _ _ _ _ _ _ F) Hid) as [[t Ht] _].
+    unfold script_id.
+    destruct (find_total (fun e : N * N * tables => N.eqb (fst (fst e)) pi) _ _ Ht) as [y ->]; [cbn; apply N.eqb_refl|].
+    eauto.
+  Qed.
+
+  Lemma resolve_rows_total : exists rows, EmitData.resolve_rows a = Ok rows.
+  Proof.
+    unfold EmitData.resolve_rows. apply omap_tot. intros [s row] Hrow. cbn [fst snd].
+    match goal with |- exists y, obind (omap ?f ?l) _ = _ => destruct (omap_tot f l) as [kvs Hk] end.
+    - intros [pi to] Hpt. cbn [fst snd]. destruct (subtrans_script_id s row pi to Hrow Hpt) as [id ->]. cbn. eauto.
+    - rewrite Hk. cbn. eauto.
+  Qed.
+
+  Lemma group_blocks_total wrapper shape_fn shape_wrapper groups :
+    valid_grouping a groups = true ->
+    exists gs, EmitData.group_blocks wrapper shape_fn shape_wrapper a groups = Ok gs.
+  Proof.
+    intro V. unfold valid_grouping in V.
+    apply andb_prop in V. destruct V as [V Vg]. apply andb_prop in V. destruct V as [V Vin]. clear V.
+    rewrite forallb_forall in Vin, Vg.
+    unfold EmitData.group_blocks. apply omap_tot. intros [i g] Hin. cbn [fst snd].
+    apply number_from_in in Hin. destruct Hin as [_ Hn]. apply nth_error_In in Hn.
+    assert (Hids : forall id, In id g -> exists t, tables_of_id a id = Ok t).
+    { intros id Hid. apply script_id_has. apply MinimizeBasics.memN_iff. apply Vin. apply in_concat. exists g. auto. }
+    specialize (Vg g Hn). unfold EmitData.group_block, EmitData.tables_of.
+    destruct g as [|id r]; [discriminate|]. destruct r as [|id2 r2].
+    - destruct (Hids id (or_introl eq_refl)) as [t ->]. cbn. eauto.
+    - destruct (Hids id (or_introl eq_refl)) as [t ->]. cbn [obind].
+      match goal with |- exists y, obind (obind (omap ?f ?l) _) _ = _ => destruct (omap_tot f l) as [ws Hws] end.
+      + intros j Hj. destruct (Hids j Hj) as [tj ->]. cbn. eauto.
+      + rewrite Hws. cbn. eauto.
+  Qed.
+
 End Script.
+
+Lemma data_blocks_total sh c om os nd a command groups :
+  dfa_wf (c_main c) -> all_tables sh c om os = Ok (nd, a) ->
+  valid_grouping a groups = true -> exists bs, data_blocks sh command nd a groups = Ok bs.
+Proof.
+  intros Hwf Hall V. destruct (resolve_rows_total sh c om os nd a Hwf Hall) as [rows Hrows].
+  assert (G := fun w s sw => group_blocks_total sh c om os nd a Hall w s sw groups V).
+  unfold data_blocks. destruct sh.
+  - eauto.
+  - unfold EmitData.F.data.
+    destruct (G (EmitData.F.wrapper command) (EmitData.F.shape_fn command) (EmitData.F.shape_wrapper command)) as [gs Hgs].
+    rewrite Hgs, Hrows. destruct (n_subwords nd); cbn [obind]; eauto.
+  - unfold EmitData.Z.data.
+    destruct (G (EmitData.Z.wrapper command) (EmitData.Z.shape_fn command) (EmitData.Z.shape_wrapper command)) as [gs Hgs].
+    rewrite Hgs, Hrows. destruct (n_subwords nd); cbn [obind]; eauto.
+  - unfold EmitData.P.data.
+    destruct (G (EmitData.P.wrapper command) (EmitData.P.shape_fn command) (EmitData.P.shape_wrapper command)) as [gs Hgs].
+    rewrite Hgs, Hrows. destruct (n_subwords nd); cbn [obind]; eauto.
+Qed.
 
 (** *** the capstone *)
 From CG Require Import Model.Parser Proofs.TreeFacts Proofs.CheckTree Proofs.DriverCorrect Proofs.CompiledFacts Proofs.SubCompiled
@@ -562,9 +646,9 @@ Proof.
   destruct (orders_ok c (o_main_lits o) (o_sub_lits o)) eqn:Ho; [|auto].
   destruct (compiled_facts pick fuel v c Ha Hc) as [_ [W _]].
   destruct (rtrans_total (c_main c) W) as [rt Hrt].
-  destruct (all_tables_total c _ _ rt W Hrt (compiled_pool_closed pick fuel v c rt Ha Hc Hrt) Ho) as [nd [a Hall]].
+  destruct (all_tables_total Bash c _ _ rt W Hrt (compiled_pool_closed pick fuel v c rt Ha Hc Hrt) Ho) as [nd [a Hall]].
   rewrite Hall. destruct (valid_grouping a (o_groups o)) eqn:Vg; [|auto].
-  destruct (script_total c _ _ nd a W Hall (v_command v) (o_sig o) (o_groups o) Vg) as [s ->]. eauto.
+  destruct (script_total Bash c _ _ nd a W Hall (v_command v) (o_sig o) (o_groups o) Vg) as [s ->]. eauto.
 Qed.
 
 Theorem compile_bash_total o builtins text :
@@ -583,5 +667,37 @@ Proof.
     destruct (check_tree builtins g Bash v Hv) as [_ [_ [_ Halts]]].
     specialize (Halts (Props.C05b.parse_alts_nonempty text g Hg)).
     destruct (emit_bash_total o _ _ v c Halts Hc) as [[s Hs]|Hb]; [left|right]; eauto.
+  - rewrite He. right. eauto.
+Qed.
+
+(** *** fish, zsh, pwsh: the data sections *)
+Theorem emit_data_total sh o pick fuel v c :
+  alts_nonempty (v_expr v) = true -> compile_valid pick fuel v = Ok c ->
+  (exists bs, emit_data sh o v c = Ok bs) \/ emit_data sh o v c = Err CBadOracle.
+Proof.
+  intros Ha Hc. unfold emit_data.
+  destruct (orders_ok c (o_main_lits o) (o_sub_lits o)) eqn:Ho; [|auto].
+  destruct (compiled_facts pick fuel v c Ha Hc) as [_ [W _]].
+  destruct (rtrans_total (c_main c) W) as [rt Hrt].
+  destruct (all_tables_total sh c _ _ rt W Hrt (compiled_pool_closed pick fuel v c rt Ha Hc Hrt) Ho) as [nd [a Hall]].
+  rewrite Hall. destruct (valid_grouping a (o_groups o)) eqn:Vg; [|auto].
+  destruct (data_blocks_total sh c _ _ nd a (v_command v) (o_groups o) W Hall Vg) as [bs ->]. eauto.
+Qed.
+
+Theorem compile_data_total sh o builtins text :
+  fuel_covers (o_fuel o) builtins text sh ->
+  (exists bs, compile_data sh o builtins text = Ok bs) \/ (exists e, compile_data sh o builtins text = Err e).
+Proof.
+  intro Hf. unfold compile_data.
+  destruct (compile_total (pick_table (o_pops o)) (o_fuel o) builtins text sh Hf) as [[[v c] Hvc]|[e He]].
+  - rewrite Hvc.
+    assert (H := Hvc). unfold compile in H.
+    destruct (parse text) as [g| | |] eqn:Hg; cbn in H; try discriminate.
+    destruct (from_grammar builtins g sh) as [v'| | |] eqn:Hv; cbn in H; try discriminate.
+    destruct (compile_valid (pick_table (o_pops o)) (o_fuel o) v') as [c'| | |] eqn:Hc; cbn in H; try discriminate.
+    inversion H; subst v' c'.
+    destruct (check_tree builtins g sh v Hv) as [_ [_ [_ Halts]]].
+    specialize (Halts (Props.C05b.parse_alts_nonempty text g Hg)).
+    destruct (emit_data_total sh o _ _ v c Halts Hc) as [[s Hs]|Hb]; [left|right]; eauto.
   - rewrite He. right. eauto.
 Qed.
